@@ -307,6 +307,32 @@ pub fn run(ctx: &Ctx) -> Report {
         st.engine_errors.extend(errs);
         rep.part("finalisation failures (fchmod / utimensat / fsync) x scheduling deviations on multi-block files", st, serde_json::json!({"fault_runs": n, "d": dd}));
     }
+    // the report of a failure must get through however busy the status channel is and however long its consumer
+    // (the main thread) does not run: a failing block job after 150 files, main starved, and any wait with a
+    // timeout on the way allowed to expire first (no such wait exists in the tree as it is: one execution each)
+    {
+        let mut jobs = vec![];
+        for d in drivers() {
+            let mut tree = vec![Entry::dir("src")];
+            for i in 0..150 {
+                tree.push(Entry::file(&format!("src/f{:03}", i), "x"));
+            }
+            tree.push(Entry::file("src/zz-last", "0123456789"));
+            let s = Arc::new(Scenario::new(&format!("error-after-150-files-main-starved-{}@timerpoints@afterfault", d), tree, &["-r", "--driver", d, "-w", "2", "--block-size", "4", "src", "dst"]));
+            let order: Vec<String> = if d == "parfile" { vec!["0.1.1".into(), "0.1.2".into(), "0.1.3".into(), "0.1".into(), "0".into()] } else { vec!["0.1.2".into(), "0.1.1".into(), "0.1.1.*".into(), "0.1".into(), "0".into()] };
+            for pol in [Policy::Prio(order.clone()), Policy::PrioEager(order.clone())] {
+                // the first and the second file to be copied (the walker is 128 updates ahead by then), and one at the end
+                for (call, en, nth, pc) in [("copy_file_range", libc::EIO, Some(1), None), ("copy_file_range", libc::EIO, Some(2), None), ("fchmod", libc::EPERM, Some(1), None), ("copy_file_range", libc::EIO, None, Some("zz-last".to_string()))] {
+                    let mut sp = RunSpec::base(pol.clone());
+                    sp.step_limit = 3_000_000;
+                    sp.faults.push(Fault { call: call.into(), thread: None, nth, path_contains: pc, action: Action::Errno(en) });
+                    jobs.push((s.clone(), sp, 1usize));
+                }
+            }
+        }
+        let st = explore(&ctx.pool, jobs, j);
+        rep.part("a failing step after 150 files while the main thread is starved; timed waits may expire first", st, serde_json::json!({}));
+    }
     if !ctx.quick() {
         let (jobs, _, _) = fault_jobs(ctx, &scenarios(false));
         let firsts: Vec<_> = jobs.into_iter().filter(|j| j.1.faults.len() == 1).collect();
